@@ -26,6 +26,7 @@ type GenCfg struct {
 	Preflight              bool
 	Local                  bool
 	Resources              bool
+	ManyFileTypes bool // eight user file types instead of two
 	ChunkFiles bool // splits give their chunks files
 	VMem bool // stages also ask for virtual address space
 	Volatile               bool
@@ -77,6 +78,9 @@ func Generate(t *Tape, cfg *GenCfg) *Prog {
 	g.prim = []string{"int", "string", "float", "bool"}
 	if cfg.Files {
 		g.p.FileTypes = []string{"txt", "json"}
+		if cfg.ManyFileTypes {
+			g.p.FileTypes = []string{"txt", "json", "bam", "csv", "h5", "bed", "vcf", "fastq"}
+		}
 	}
 	if cfg.Structs {
 		ns := 1 + g.pick(3)
@@ -287,8 +291,17 @@ func (g *gen) litVal(t Ty, depth int, uniq *int) interface{} {
 	*uniq++
 	switch t.Base {
 	case "int":
+		if g.pick(6) == 0 {
+			return -int64(1000 + *uniq*7)
+		}
 		return int64(1000 + *uniq*7 + g.pick(5))
 	case "float":
+		switch g.pick(6) {
+		case 0:
+			return -(float64(*uniq) + 0.25)
+		case 1:
+			return -0.5 / float64(*uniq+1)
+		}
 		return float64(*uniq) + 0.25
 	case "string":
 		return fmt.Sprintf("lit%d", *uniq)
